@@ -75,7 +75,7 @@ def _bound_to_container(fi: FuncInfo, name: str) -> bool:
 
 def _quantity_of(fi: FuncInfo, e: ast.AST, depth: int = 0) -> Optional[Tuple[str, str]]:
     """(kind, how we know) if the expression denotes a zero-is-legitimate quantity"""
-    if isinstance(e, ast.Call) and isinstance(e.func, ast.Name) and e.func.id in ("getattr", "float", "abs", "bool") and e.args:
+    if isinstance(e, ast.Call) and isinstance(e.func, ast.Name) and e.func.id in ("getattr", "float", "abs", "bool", "get_value", "round", "int") and e.args:
         return _quantity_of(fi, e.args[0], depth)
     if isinstance(e, ast.Attribute):
         k = quantity_kind(e.attr.lstrip("_"))
@@ -140,6 +140,8 @@ def _operands(test: ast.AST) -> Iterable[ast.AST]:
     elif isinstance(test, ast.Call) and isinstance(test.func, ast.Name) and test.func.id == "bool" and len(test.args) == 1:
         yield from _operands(test.args[0])
     elif isinstance(test, (ast.Name, ast.Attribute, ast.Subscript)):
+        yield test
+    elif isinstance(test, ast.Call) and isinstance(test.func, ast.Name) and test.func.id in ("get_value", "float", "getattr") and test.args:
         yield test
     elif isinstance(test, ast.NamedExpr):
         yield from _operands(test.value)
